@@ -26,8 +26,8 @@ Record config := mkConfig {
   c_nb : nat;          (* boson.MaxBins: number of bins of both pslices *)
   c_maxpo : N;         (* boson.MaxPO: largest value of Proximity; radius used by binSaturated *)
   c_nn : N;            (* nnLowWatermark (live) *)
-  c_qs : N;            (* quickSaturationPeers (live) *)
-  c_sat : N;           (* saturationPeers (live) *)
+  c_qs : N;            (* quickSaturationPeers at the time of New (live afterwards: state field [thr]) *)
+  c_sat : N;           (* saturationPeers at the time of New (live afterwards) *)
   c_over : N;          (* overSaturationPeers at the time of New *)
   c_bootover : N;      (* bootNodeOverSaturationPeers *)
   c_boot : bool;       (* Options.NodeMode.IsBootNode() *)
@@ -148,12 +148,14 @@ Definition counted (cfg : config) (flt : peer -> bool) (bin : N) (x : peer * N) 
 Definition count_bin (cfg : config) (flt : peer -> bool) (bin : N) (conn : pslice) : N :=
   N.of_nat (length (filter (counted cfg flt bin) (each conn))).
 
-Definition potential_depth (cfg : config) (flt : peer -> bool) (known : pslice) : N :=
-  recalc_depth (c_nn cfg) (c_qs cfg) known (c_maxpo cfg) flt.
+(** [thr] = the live (quickSaturationPeers, saturationPeers); the over-saturation amount is the
+    value captured by the closure at New ([eff_over]) *)
+Definition potential_depth (cfg : config) (thr : N * N) (flt : peer -> bool) (known : pslice) : N :=
+  recalc_depth (c_nn cfg) (fst thr) known (c_maxpo cfg) flt.
 
-Definition bin_saturated (cfg : config) (flt : peer -> bool) (bin : N) (known conn : pslice) : bool * bool :=
-  if potential_depth cfg flt known <=? bin then (false, false)
-  else let size := count_bin cfg flt bin conn in (c_sat cfg <=? size, eff_over cfg <=? size).
+Definition bin_saturated (cfg : config) (thr : N * N) (flt : peer -> bool) (bin : N) (known conn : pslice) : bool * bool :=
+  if potential_depth cfg thr flt known <=? bin then (false, false)
+  else let size := count_bin cfg flt bin conn in (snd thr <=? size, eff_over cfg <=? size).
 
 (** ---- Kad state ---- *)
 Record state := mkState {
@@ -161,18 +163,19 @@ Record state := mkState {
   known : pslice;         (* knownPeers *)
   protect : list peer;    (* protectPeers *)
   public : list peer;     (* peers whose last recorded reachability status is Public *)
-  depth : N               (* k.depth *)
+  depth : N;              (* k.depth *)
+  thr : N * N             (* live package variables (quickSaturationPeers, saturationPeers) *)
 }.
 
 Definition init (cfg : config) : state :=
-  mkState (ps_new (c_nb cfg)) (ps_new (c_nb cfg)) [] [] 0.
+  mkState (ps_new (c_nb cfg)) (ps_new (c_nb cfg)) [] [] 0 (c_qs cfg, c_sat cfg).
 
 (** [peerUnreachable]: no metrics entry, or status other than Public *)
 Definition unreach (st : state) (p : peer) : bool := negb (memb p (public st)).
 Definition is_protected (st : state) (p : peer) : bool := memb p (protect st).
 
-Definition cur_depth (cfg : config) (c : pslice) (pub : list peer) : N :=
-  recalc_depth (c_nn cfg) (c_qs cfg) c (c_radius cfg) (fun p => negb (memb p pub)).
+Definition cur_depth (cfg : config) (t : N * N) (c : pslice) (pub : list peer) : N :=
+  recalc_depth (c_nn cfg) (fst t) c (c_radius cfg) (fun p => negb (memb p pub)).
 
 Inductive event :=
 | EConnected (p : peer) (force bfail : bool) (victim : nat)
@@ -182,7 +185,8 @@ Inductive event :=
 | EPick (p : peer)
 | EAddPeers (ps : list peer)
 | EProtect (ps : list peer)
-| EReach (p : peer) (pub : bool).
+| EReach (p : peer) (pub : bool)
+| ENewKad (binmax : N).      (* another kademlia.New in the same process with Options.BinMaxPeers = binmax *)
 
 Inductive resp :=
 | ROk
@@ -199,7 +203,7 @@ Definition outcome := (state * resp * list peer)%type.
 (** [Disconnected(peer)] *)
 Definition disconnected (cfg : config) (st : state) (p : peer) : state :=
   let c := ps_remove cfg p (conn st) in
-  mkState c (known st) (protect st) (public st) (cur_depth cfg c (public st)).
+  mkState c (known st) (protect st) (public st) (cur_depth cfg (thr st) c (public st)) (thr st).
 
 (** a successful [p2p.Disconnect(v)] as seen by Kad *)
 Definition p2p_disc (cfg : config) (st : state) (v : peer) : state :=
@@ -215,10 +219,10 @@ Definition on_connected (cfg : config) (st : state) (p : peer) (bfail : bool) : 
   else
     let k := ps_add1 cfg p (known st) in
     let c := ps_add1 cfg p (conn st) in
-    (mkState c k (protect st) (public st) (cur_depth cfg c (public st)), ROk, []).
+    (mkState c k (protect st) (public st) (cur_depth cfg (thr st) c (public st)) (thr st), ROk, []).
 
 Definition oversaturated (cfg : config) (st : state) (p : peer) : bool :=
-  snd (bin_saturated cfg (unreach st) (N.of_nat (prox cfg p)) (known st) (conn st)).
+  snd (bin_saturated cfg (thr st) (unreach st) (N.of_nat (prox cfg p)) (known st) (conn st)).
 
 (** candidates of [randomPeer(po)]: the bin without static peers, order kept *)
 Definition evict_candidates (cfg : config) (st : state) (p : peer) : list peer :=
@@ -240,11 +244,11 @@ Definition connected (cfg : config) (st : state) (p : peer) (force bfail : bool)
 
 Definition outbound (cfg : config) (st : state) (p : peer) (boot : bool) : outcome :=
   if boot then
-    (mkState (conn st) (ps_remove cfg p (known st)) (protect st) (public st) (depth st), ROk, [])
+    (mkState (conn st) (ps_remove cfg p (known st)) (protect st) (public st) (depth st) (thr st), ROk, [])
   else
     let k := ps_add1 cfg p (known st) in
     let c := ps_add1 cfg p (conn st) in
-    (mkState c k (protect st) (public st) (cur_depth cfg c (public st)), ROk, []).
+    (mkState c k (protect st) (public st) (cur_depth cfg (thr st) c (public st)) (thr st), ROk, []).
 
 Definition disconnect_force (cfg : config) (st : state) (p : peer) (p2pfail abfail : bool) : outcome :=
   if p2pfail then (st, RErrP2P, [])
@@ -253,7 +257,7 @@ Definition disconnect_force (cfg : config) (st : state) (p : peer) (p2pfail abfa
     if abfail then (st1, RErrAddressbook, [p])
     else
       let c := ps_remove cfg p (conn st1) in
-      (mkState c (ps_remove cfg p (known st1)) (protect st1) (public st1) (cur_depth cfg c (public st1)), ROk, [p]).
+      (mkState c (ps_remove cfg p (known st1)) (protect st1) (public st1) (cur_depth cfg (thr st1) c (public st1)) (thr st1), ROk, [p]).
 
 Definition pick (cfg : config) (st : state) (p : peer) : bool :=
   if c_boot cfg then true
@@ -270,9 +274,19 @@ Fixpoint remove_all (p : peer) (l : list peer) : list peer :=
 Definition reach (cfg : config) (st : state) (p : peer) (pub : bool) : state :=
   if pub then
     let pb := if memb p (public st) then public st else p :: public st in
-    mkState (conn st) (known st) (protect st) pb (cur_depth cfg (conn st) pb)
+    mkState (conn st) (known st) (protect st) pb (cur_depth cfg (thr st) (conn st) pb) (thr st)
   else
-    mkState (conn st) (known st) (protect st) (remove_all p (public st)) (depth st).
+    mkState (conn st) (known st) (protect st) (remove_all p (public st)) (depth st) (thr st).
+
+(** [New]: BinMaxPeers > 0 rewrites overSaturationPeers (rounded up to a multiple of 5, at
+    least 5), saturationPeers = over/5*2 and quickSaturationPeers = over/5 — package variables
+    read live by every Kad of the process; an existing Kad keeps the over-saturation amount its
+    closure captured and its stale depth *)
+Definition rethreshold (binmax : N) (t : N * N) : N * N :=
+  if binmax =? 0 then t else
+  let b := if binmax <? 5 then 5 else binmax in
+  let over := if b mod 5 =? 0 then b else b - b mod 5 + 5 in
+  (over / 5, over / 5 * 2).
 
 Definition step (cfg : config) (st : state) (e : event) : outcome :=
   match e with
@@ -281,9 +295,10 @@ Definition step (cfg : config) (st : state) (e : event) : outcome :=
   | EDisconnected p => (disconnected cfg st p, ROk, [])
   | EDisconnectForce p f1 f2 => disconnect_force cfg st p f1 f2
   | EPick p => (st, RBool (pick cfg st p), [])
-  | EAddPeers ps => (mkState (conn st) (ps_add cfg ps (known st)) (protect st) (public st) (depth st), ROk, [])
-  | EProtect ps => (mkState (conn st) (known st) ps (public st) (depth st), ROk, [])
+  | EAddPeers ps => (mkState (conn st) (ps_add cfg ps (known st)) (protect st) (public st) (depth st) (thr st), ROk, [])
+  | EProtect ps => (mkState (conn st) (known st) ps (public st) (depth st) (thr st), ROk, [])
   | EReach p pub => (reach cfg st p pub, ROk, [])
+  | ENewKad b => (mkState (conn st) (known st) (protect st) (public st) (depth st) (rethreshold b (thr st)), ROk, [])
   end.
 
 (** a history: the log keeps, per call, the event, the return value and the p2p.Disconnect calls *)
@@ -340,5 +355,5 @@ Definition in_bin_counted (cfg : config) (st : state) (b : nat) (q : peer) : boo
   Nat.eqb (pbin cfg q) b && negb (unreach st q) && negb (is_static cfg q).
 
 Definition oversaturated_spec (cfg : config) (st : state) (L : list peer) (b : nat) : bool :=
-  (N.of_nat b <? potential_depth cfg (unreach st) (known st)) &&
+  (N.of_nat b <? potential_depth cfg (thr st) (unreach st) (known st)) &&
   (eff_over cfg <=? N.of_nat (length (filter (in_bin_counted cfg st b) L))).
